@@ -169,7 +169,42 @@ def corr(ctx):
                          {"request": rq, "impl": im})
 
 
+def spelling_case(case):
+    """the directory operand written in ways other than the canonical absolute path: what the codemod's rule reports is still acted on"""
+    import os, shutil
+    import e2e
+    root = common.tmpdir("c18d")
+    try:
+        proj = root / "p"
+        src = 'import requests\n\nrequests.get("https://example.com", verify=False)\n'
+        e2e.write_project(proj, {"m.py": src, "pkg/n.py": src})
+        if case["spelling"] == "symlink":
+            os.symlink(proj, root / "lnk"); arg = root / "lnk"
+        elif case["spelling"] == "dotdot":
+            (root / "x").mkdir(); arg = root / "x" / ".." / "p"
+        elif case["spelling"] == "trailing-slash-dot":
+            arg = str(proj) + "/./"
+        else:
+            arg = proj
+        r = e2e.run(arg, ["--codemod-include", "pixee:python/requests-verify"])
+        failed = [f for res in (r["report"] or {}).get("results", []) for f in (res.get("failedFiles") or [])]
+        return {"rc": r["rc"], "rewritten": sorted(f for f in ("m.py", "pkg/n.py") if (proj / f).read_text() != src), "failed": failed}
+    finally:
+        shutil.rmtree(root, ignore_errors=True)
+
+
 def search(ctx):
+    sp_cases = [{"spelling": sp} for sp in ("plain", "symlink", "dotdot", "trailing-slash-dot")]
+    for c, r in zip(sp_cases, impl.pool_map(spelling_case, sp_cases)):
+        if r[0] != "ok":
+            ctx.broke("c18 directory-spelling harness", r[1]); continue
+        r = r[1]
+        ctx.search_case("directory-spelling", c, True)
+        if r["rc"] != ["exit", 0]:
+            ctx.fail({"kind": "cli-crash", "spelling": c["spelling"]}, f"CLI failed {r['rc']} with the directory spelled as {c['spelling']}", {"case": c})
+        elif r["rewritten"] != ["m.py", "pkg/n.py"] and not r["failed"]:
+            ctx.fail({"kind": "flagged-not-handled", "codemod": "pixee:python/requests-verify", "spelling": c["spelling"]},
+                     f"requests-verify with the directory spelled as {c['spelling']}: rewritten {r['rewritten']}, nothing listed failed (both files are flagged)", {"case": c, "result": r})
     cases = [{"pair": p, "seed": ctx.rng.randint(0, 10**9)} for p in SHIFT_PAIRS for _ in range(ctx.pick(1, 4))]
     for c, r in zip(cases, impl.pool_map(shift_case, cases)):
         if r[0] != "ok":
